@@ -221,13 +221,21 @@ pub fn has_comp(d: &str) -> bool {
 }
 
 pub fn search<T: Acc>(prm: &Params, s: &mut Sink) -> BfsStats {
+    search_with::<T>(prm, &|_, _| {}, s)
+}
+
+/// the same search with an additional invariant evaluated on every new state
+pub fn search_with<T: Acc>(prm: &Params, extra: &(dyn Fn(&Pool<T>, &mut Sink) + Sync), s: &mut Sink) -> BfsStats {
     let chunk_tab = chunks::<T>(prm.chunk_alpha);
     let nch = chunk_tab.len();
     let bfs = Bfs {
         actions: &|p: &Pool<T>| actions::<T>(p, prm, nch),
         step: &|p: &Pool<T>, a: &Act, sink: &mut Sink| step::<T>(p, a, prm, &chunk_tab, sink),
         key: &|p: &Pool<T>| key::<T>(p),
-        check: &|p: &Pool<T>, sink: &mut Sink| check::<T>(p, sink),
+        check: &|p: &Pool<T>, sink: &mut Sink| {
+            check::<T>(p, sink);
+            extra(p, sink);
+        },
         max_depth: prm.depth,
         max_states: prm.max_states,
     };
@@ -236,6 +244,10 @@ pub fn search<T: Acc>(prm: &Params, s: &mut Sink) -> BfsStats {
 
 /// replay one recorded history, judging every step and every intermediate state
 pub fn replay<T: Acc>(hist: &[Act], max_regs: usize, s: &mut Sink) {
+    replay_with::<T>(hist, max_regs, &|_, _| {}, s)
+}
+
+pub fn replay_with<T: Acc>(hist: &[Act], max_regs: usize, extra: &dyn Fn(&Pool<T>, &mut Sink), s: &mut Sink) {
     let prm = Params { max_regs, max_obs: 64, depth: 0, max_states: 0, chunk_alpha: CHUNK_ALPHA };
     let chunk_tab = chunks::<T>(CHUNK_ALPHA);
     let mut p = Pool::<T> { regs: vec![], hist: vec![], max_regs };
@@ -243,6 +255,7 @@ pub fn replay<T: Acc>(hist: &[Act], max_regs: usize, s: &mut Sink) {
         match step::<T>(&p, a, &prm, &chunk_tab, s) {
             Some(n) => {
                 check::<T>(&n, s);
+                extra(&n, s);
                 p = n;
             }
             None => break,
